@@ -400,6 +400,31 @@ pub fn check() -> Option<Check> {
             if let Err(e) = cu::message_deep_eq(&built.msg, &back) {
                 vfail!("roundtrip-changed-message", "{e}");
             }
+            // the same message from an object that was used before: built (or received) with an
+            // extended response code in its OPT data, then given this message's response code and
+            // sent again. What is left in the OPT data from the earlier use is not part of the message.
+            if m.edns.is_some() && m.tsig.is_none() {
+                let mut prior = m.clone();
+                let stale = 1 + (crate::core::fixed_hash(&[b"c02-reused", &bytes]) % 255) as u16;
+                prior.rcode = (m.rcode & 0x000f) | (stale << 4);
+                if prior.rcode != m.rcode {
+                    if let Ok(mut reused) = cu::build_message(&prior) {
+                        reused.msg.metadata.response_code = built.msg.metadata.response_code;
+                        rec.class("message-object-reused-after-an-extended-rcode");
+                        let b2 = match reused.msg.to_vec() {
+                            Ok(b) => b,
+                            Err(e) => vfail!("valid-message-does-not-encode", "re-used object: to_vec failed: {e}"),
+                        };
+                        let back2 = match Message::from_vec(&b2) {
+                            Ok(b) => b,
+                            Err(e) => vfail!("encoded-message-does-not-decode", "re-used object: from_vec(to_vec(m)) failed: {e}"),
+                        };
+                        if let Err(e) = cu::message_deep_eq(&back, &back2) {
+                            vfail!("roundtrip-changed-message", "object used before with response code {} and now with {}: decodes differently from a fresh object: {e}", prior.rcode, m.rcode);
+                        }
+                    }
+                }
+            }
             let (_, pointers) = packet_matches_model(&bytes, m)?;
             classify(m, pointers, bytes.len(), rec);
             Ok(())
